@@ -59,6 +59,7 @@ CONFIGS = [
         shapes="ShUpTo(%s, 3) \\cup {e \\in ShUpTo(%s, 5) : IsNode(e)} \\cup NodeSubjectNodes({Leaf(V(\"a1\"))}, 9) \\cup Decorated({Leaf(V(\"a1\"))})" % (B2, B2)),
     # traversal and queries on every shape and its obscured variants (C15)
     cfg("query_q", [["build"], ["elideset", "compressone", "observe"], ["observe"]], nreg=1, maxsize=12, maxt=2,
+        inv=("WellFormedInv", "DeclaredDigestHonest", "RevealKeepsDigest", "C15Laws"),
         shapes="ShUpTo(%s, 5) \\cup NodeSubjectNodes(%s, 9) \\cup Decorated(%s)" % (B3, B2, B2)),
     # the decoder on every single structural mutation of valid encodings (C06)
     cfg("decode_q", [["build"], ["elideset", "compressone", "decodewire", "codec"], ["decodewire", "codec"]], nreg=1, maxsize=14, maxt=1,
